@@ -489,7 +489,7 @@ STATIC = [static_writer]
 
 # ------------------------------------------------------------------------------------------------ bounded
 ALPHABET = ['a', 'B', ' ', '"', '\\', '\n', '\t', '{', '}', '[', ']', '/', '//', '\\n', '\\"', "'", '\x00', '\x1b', '\x7f',
-            '\r', 'é', 'ß', ' ', '\U0001f600', '+', '=', ',', '$', '%', '#', '\\\\', '"\\']
+            '\r', 'é', 'ß', ' ', '\U0001f600', '+', '=', ',', '$', '%', '#', '\\\\', '"\\', '\ufeff', 'x\ufeff']
 
 
 def _gen_str(rng, for_name):
@@ -584,6 +584,12 @@ TARGETED = {
     'brace_strings': lambda K: K.root(K('{', '}'), K('}', [K('{', '{')])),
     'bracket_strings': lambda K: K.root(K('[flag]', '[x]'), K('k', 'v [flag]')),
     'deep': lambda K: K('a', [K('b', [K('c', [K('d', [K('e', 'f')])])])]),
+    # U+FEFF is only skipped *between* tokens of the first line; inside quoted strings it is data
+    'bom_inside_strings': lambda K: K.root(K('\ufeffBlock\ufeff', [K('\ufeffk', 'v\ufeff')]), K('\ufeff', '\ufeff')),
+    'bom_inside_first_leaf': lambda K: K.root(K('\ufeffa\ufeffb', '\ufeff\ufeff')),
+    # one block object at two positions (the object graph is a DAG, its content a tree): written once per position
+    'shared_block_twice_under_root': lambda K: (lambda a: K.root(a, a))(K('a', [K('x', 'y')])),
+    'shared_block_under_two_parents': lambda K: (lambda a: K('top', [K('p', [a]), K('q', [a, K('r', [a])])]))(K('a', [K('x', 'y'), K('e', [])])),
 }
 
 
@@ -605,9 +611,9 @@ def _job_targeted(kind):
     return ('ok', 1)
 
 
-@bounded('C01.B-roundtrip', bound='11 targeted trees + generated trees (depth <= 4, <= 4 children per block, names/values of <= 5 '
+@bounded('C01.B-roundtrip', bound='15 targeted trees + generated trees (depth <= 4, <= 4 children per block, names/values of <= 5 '
          'pieces from an alphabet with quotes, backslashes, escape look-alikes, braces, brackets, control characters, CR, '
-         'U+2028 and non-BMP characters) x 5 option sets x parse on str / chunk list / single characters / file object; '
+         'U+2028, U+FEFF and non-BMP characters; block objects shared between positions) x 5 option sets x parse on str / chunk list / single characters / file object; '
          'quick 4000 trees, thorough 100000', rule='a tree with no children is trivial')
 def b_roundtrip(ctx):
     for kind, res in ctx.pmap(_job_targeted, list(TARGETED), job_timeout=5.0):
@@ -664,6 +670,10 @@ for _c in PROOFS:
 
 # ------------------------------------------------------------------------------------------------ self-test catalogue
 MUTATIONS = [
+    dict(name='bom_dropped_inside_quoted_strings', file='tokenizer.py',
+         old="                    if chunk:\n                        self._cur_chunk = chunk\n                        self._char_index = 0",
+         new="                    if self.line_num == 1 and chunk.startswith('\\uFEFF'):\n                        chunk = chunk[1:]\n                    if chunk:\n                        self._cur_chunk = chunk\n                        self._char_index = 0",
+         expect='targeted=bom_inside'),
     dict(name='block_name_unescaped', file='keyvalues.py',
          old="""                file.write(f'{cur_indent}"{escape_text(self._real_name)}"\\n')""",
          new="""                file.write(f'{cur_indent}"{self._real_name}"\\n')""", expect='serialise.block'),
